@@ -197,6 +197,12 @@ func traceStageRun(cfg TraceSpecCfg, st *TraceStats, only int, timeout time.Dura
 	}
 	defer os.RemoveAll(dir)
 	recs := recordBatch(dir, &cfg, st, only)
+	return validateRecs(dir, recs, st, start, timeout, maxExamples)
+}
+
+// validateRecs validates recorded containers against the specification with TLC (DigTrace) and
+// compares every prediction with the recorded observation.
+func validateRecs(dir string, recs []*run.Recorded, st *TraceStats, start time.Time, timeout time.Duration, maxExamples int) (*TraceStats, error) {
 	st.Containers = len(recs)
 	var cats []*cat.Catalog
 	for _, r := range recs {
